@@ -57,6 +57,10 @@ def _install_norm_recorder(modname):
 
 _PL = [{"label": "%s,layer=%s,call=%s" % (f, ls, cs), "field": f, "layer_set": ls, "call_set": cs}
        for f in FIELDS for ls in (False, True) for cs in (False, True)]
+# a value set on the layer wins whatever it is: falsy values (0, 0.0, False, "", empty tuple) are values, only None is "unset"
+_FALSY = [("vmin", 0), ("vmax", 0.0), ("vmin", False), ("norm", ""), ("bins", 0), ("weights", ()), ("mode", ""), ("operation", "")]
+_PL += [{"label": "%s,layer=%r(falsy),call=set" % (f, val), "field": f, "layer_set": True, "call_set": True, "layer_value": val}
+        for f, val in _FALSY]
 
 
 @unit("C19", "parse_layer", targets=[PARSER + ":parse_layer", LAYER + ":Layer.copy", LAYER + ":Layer.__init__"], cases=_PL, replay=NP.replay_options)
@@ -67,16 +71,18 @@ def parse_layer(case):
     data = A.mk_array("d", dims, "1d")
     data.name = "density"
     aux = {"position": A.mk_array("p", dims, "1d")}
-    lv, cv = object(), object()
+    lv, cv = case.get("layer_value", object()), object()
     f = case["field"]
-    layer = osy.core.Layer(data, aux=aux, **({f: lv} if case["layer_set"] else {}), cmap="layer_cmap", alpha=0.5)
+    layer = osy.core.Layer(data, aux=aux, **({f: lv} if case["layer_set"] else {}), cmap="layer_cmap", alpha=0.5, linewidth=0)
     s = K.snap_layer(layer)
-    out = P.parse_layer(layer, **({f: cv} if case["call_set"] else {}), cmap="call_cmap", zorder=3)
+    out = P.parse_layer(layer, **({f: cv} if case["call_set"] else {}), cmap="call_cmap", zorder=3, linewidth=2)
+    prove("kwargs.falsy_layer_value_wins", out.kwargs.get("linewidth") == 0 and type(out.kwargs.get("linewidth")) is int)
     want = lv if case["layer_set"] else (cv if case["call_set"] else None)
     prove("merged_value", getattr(out, f) is want)
     for g in FIELDS:
         if g != f:
             prove("other_field_untouched[%s]" % g, getattr(out, g) is None)
+    prove("merged_value.type", type(getattr(out, f)) is type(want))
     prove("kwargs.layer_wins", out.kwargs.get("cmap") == "layer_cmap" and out.kwargs.get("alpha") == 0.5)
     prove("kwargs.call_fills_unset", out.kwargs.get("zorder") == 3)
     prove("fresh_layer", out is not layer)
@@ -118,8 +124,9 @@ def layer_ops(case):
 # histogram2d: frame + merged options
 # --------------------------------------------------------------------------------------
 @unit("C19", "histogram2d", targets=["osyris.plot.histogram2d:histogram2d"],
-      uses=["hist2d@histogram2d", "_binary_op", "Array.to", "Array._wrap_numpy"],
-      cases=[{"label": "plot=False"}, {"label": "plot=True"}], replay=NP.replay_frames, max_paths=200)
+      uses=["hist2d@histogram2d", "_binary_op", "Array.to"],
+      cases=[{"label": "plot=False"}, {"label": "plot=True"}, {"label": "plot=False,logx"}, {"label": "plot=False,loglog"},
+             {"label": "plot=False,logy,vector_xy"}], replay=NP.replay_frames, max_paths=200)
 def histogram2d(case):
     osy = O()
     restore = _install_norm_recorder("osyris.plot.histogram2d")
@@ -129,6 +136,14 @@ def histogram2d(case):
         n = core.fresh_int("n", 1)
         xa = osy.Array(values=snp.sym_array("x", (n,), "float64"), unit=spint.sym_unit("ux"), name="x")
         ya = osy.Array(values=snp.sym_array("y", (n,), "float64"), unit=spint.sym_unit("uy"), name="y")
+        logkw = {}
+        for key in ("logx", "logy", "loglog"):
+            if key in case["label"]:
+                logkw[key] = True
+        x_arg, y_arg = xa, ya
+        if "vector_xy" in case["label"]:
+            x_arg = osy.Vector(xa, name="vx")  # a 1-component Vector: its norm is the component itself
+            y_arg = osy.Vector(ya, name="vy")
         w1 = osy.Array(values=snp.sym_array("w1", (n,), "float64"), unit=spint.sym_unit("uw1"), name="w1")
         w2 = osy.Array(values=snp.sym_array("w2", (n,), "float64"), unit=spint.sym_unit("uw2"), name="w2")
         l1 = osy.core.Layer(w1, operation="mean", vmin=2.0, mode="contour", cmap="viridis")
@@ -136,8 +151,9 @@ def histogram2d(case):
         res = core.fresh_int("res", 1)
         snaps = [("x", A.snapshot(xa)), ("y", A.snapshot(ya)), ("w1", A.snapshot(w1)), ("w2", A.snapshot(w2))]
         ls = [K.snap_layer(l1), K.snap_layer(l2)]
-        out = M("osyris.plot.histogram2d").histogram2d(xa, ya, l1, l2, resolution=res, plot=(case["label"] == "plot=True"),
-                                                       operation="sum", vmin=5.0, vmax=7.0, norm="log", mode="image", cmap="magma", alpha=0.3)
+        out = M("osyris.plot.histogram2d").histogram2d(x_arg, y_arg, l1, l2, resolution=res, plot=(case["label"] == "plot=True"),
+                                                       operation="sum", vmin=5.0, vmax=7.0, norm="log", mode="image", cmap="magma", alpha=0.3,
+                                                       **logkw)
     finally:
         restore()
     for name, s in snaps:
